@@ -3,6 +3,7 @@ package gen
 import (
 	"bytes"
 	"encoding/binary"
+	"encoding/json"
 	"fmt"
 	"os"
 	"path/filepath"
@@ -43,6 +44,30 @@ type Src struct {
 
 	// origin corpus
 	File string `json:"file,omitempty"`
+}
+
+// MarshalJSON drops the parts that do not apply to the origin, so that
+// evidence samples and replay files stay readable.
+func (s Src) MarshalJSON() ([]byte, error) {
+	type plain Src
+	type out struct {
+		plain
+		Cfg *Cfg        `json:"cfg,omitempty"`
+		LZ  *liblz.Opts `json:"lz,omitempty"`
+	}
+	o := out{plain: plain(s)}
+	if s.Origin == "lib" {
+		c := s.Cfg
+		o.Cfg = &c
+	}
+	if s.Origin == "liblzma" {
+		l := s.LZ
+		o.LZ = &l
+	}
+	if s.Origin != "ref" || s.Fmt != "lzma" {
+		o.plain.Props = [3]int{}
+	}
+	return json.Marshal(o)
 }
 
 // Built is the result of Build.
